@@ -248,7 +248,35 @@ def judge_text(ctx, text, exp, panic, nq):
     return rec
 
 
+def build_nested_overwrite(rng):
+    """Element assignment on an array whose elements are themselves arrays (non-copyable but
+    droppable): writing element i must replace exactly element i."""
+    n = rng.randint(2, 4)
+    rows = [[rng.randint(1, 9), rng.randint(10, 19)] for _ in range(n)]
+    i = rng.randrange(n)
+    new = [rng.randint(20, 29), rng.randint(30, 39)]
+    lines = ["@guppy", "def main() -> None:",
+             "    xs = array(" + ", ".join(f"array({a}, {b})" for a, b in rows) + ")",
+             f"    xs[{i}] = array({new[0]}, {new[1]})"]
+    exp = []
+    rows[i] = new
+    for k in range(n):
+        lines.append(f'    result("r{k}", xs[{k}])')
+        exp.append((f"r{k}", rows[k]))
+    return HDR + "\n".join(lines) + "\n", exp, False, ["nested-row-overwrite"], 0, {"nested_overwrite_probes": 1}
+
+
 def run_case(ctx, rng, idx, params, tier):
+    if idx % 64 == 5:
+        text, exp, panic, kinds, nq, counters = build_nested_overwrite(rng)
+        rec = judge_text(ctx, text, exp, panic, nq)
+        if rec["status"] == "violated" and rec["mech"].startswith("C19:unexpected-panic") and \
+                "already contains an element" in str(rec["witness"].get("panic")):
+            rec["mech"] = "C19:overwriting-an-occupied-non-copyable-element-panics"
+        rec["fp"] = "nested-row-overwrite" if rec["status"] != "discard" else None
+        if rec["status"] in ("held", "violated"):
+            rec["counters"].update(counters)
+        return rec
     if idx % 3 == 2:
         text, exp, panic, kinds, nq, counters = build_qubit(rng)
     else:
